@@ -3,4 +3,4 @@ From PV Require Import Lib.Bytes Lib.PanicRes Model.Indent Model.SepWriter Spec.
   Model.Resolve Spec.ResolveSpec Model.Scope.
 Extraction "C01_model.ml" run sw_run disciplined written in_line
   resolve_exprs resolve_passes resolve_fuel value_budget
-  scope_run scope_trace scope_bindings observe.
+  scope_run scope_trace scope_bindings observe sdefine_all varnames.
